@@ -153,7 +153,10 @@ func (s *state) walk(node ast.Node) {
 	case *ast.CallNode:
 		s.visitCall(node)
 	case *ast.LetValueNode:
-		s.jsln("var ", s.scope.makevar(node.Name), " = ", node.Expr, ";")
+		// (the value is translated before the name is bound: it may refer to an
+		// outer variable of the same name.)
+		var value = s.block(node.Expr)
+		s.jsln("var ", s.scope.makevar(node.Name), " = ", value, ";")
 	case *ast.LetContentNode:
 		var oldBufferName = s.bufferName
 		s.bufferName = s.scope.makevar(node.Name)
@@ -573,12 +576,15 @@ func (s *state) visitForRange(node *ast.ForNode) {
 }
 
 func (s *state) visitForeach(node *ast.ForNode) {
+	// (the collection is translated before the loop variable is bound: it may
+	// refer to an outer variable of the same name.)
+	var list = s.block(node.List)
 	var itemData,
 		itemList,
 		itemListLen,
 		itemIndex = s.scope.pushForEach(node.Var)
 	defer s.scope.pop()
-	s.jsln("var ", itemList, " = ", node.List, ";")
+	s.jsln("var ", itemList, " = ", list, ";")
 	s.jsln("var ", itemListLen, " = ", itemList, ".length;")
 	if node.IfEmpty != nil {
 		s.jsln("if (", itemListLen, " > 0) {")
